@@ -9,8 +9,42 @@ inspect.signature of the lifted functions.
 """
 from __future__ import annotations
 
+import json
+import os
+import subprocess
+import sys
+
 from checks import _client
 from lib import ch, core
+
+
+def retag_empty(g):
+    p = subprocess.run([sys.executable, os.path.join(core.VERIF, "checks", "_c05_known.py"), g.outdir],
+                       capture_output=True, text=True, timeout=300)
+    if p.returncode != 0:
+        raise core.Inconclusive(f"_c05_known.py failed: {p.stderr[-300:]}")
+    d = json.loads(p.stdout.strip().splitlines()[-1])
+    return {key: (which, d[which], d["explicit"]) for which, key in
+            (("sync", "sync-dotted-repeated-empty"), ("async", "async-dotted-repeated-empty"))}
+
+
+def known_input_async_retag(chk, g):
+    """finding F11: the one input flat_retag_book leaves to this concrete replay (real emitted package, real proto-plus)"""
+    for key, (which, got, want) in retag_empty(g).items():
+        if got != want:
+            chk.violation(key, f"{which} retag_book(tags=[]) (signature 'book.name,book.tags') sends bytes {got!r}; the explicit request "
+                          f"RetagBookRequest(book=Tagged(tags=[])) serialises to {want!r}", {"kind": "retag-empty"})
+        else:
+            chk.ok("dotted repeated leaf, empty list (concrete, real proto-plus)", which)
+
+
+def replay(chk, data):
+    if data.get("kind") == "retag-empty":
+        from lib import apis, gen
+        g = gen.generate(apis.client_api(), parameter="transport=grpc+rest", service_yaml=apis.CLIENT_SERVICE_YAML)
+        which, got, want = retag_empty(g)[data["key"]]
+        return None if got == want else f"{which} retag_book(tags=[]) sends {got!r}, explicit request {want!r}"
+    return _client.replay(chk, data)
 
 
 def body(chk: core.Check):
@@ -23,7 +57,7 @@ def body(chk: core.Check):
     chk.bound("crosshair_per_condition_timeout_s", timeout)
     g = _client.render(chk)
     hm = ch.load_module(_client.HARNESS, {"VERIF_EMITTED": g.outdir})
-    methods = ["get_book", "create_book", "tag_book", "move_book", "shelve_book", "update_book", "delete_book", "check_operation",
+    methods = ["get_book", "create_book", "tag_book", "move_book", "retag_book", "shelve_book", "update_book", "delete_book", "check_operation",
                "mask", "import_", "stream_books"]
     ec = _client.encode_sources(chk, g, methods)
     # declared order of the flattened parameters (concrete, inspect.signature)
@@ -38,6 +72,7 @@ def body(chk: core.Check):
                               {"harness": "harness/h_client.py", "call": "True", "env": {}})
             else:
                 chk.ok("signature", f"{which}.{m}")
+    known_input_async_retag(chk, g)
     _client.run_funcs(
         chk, g, hm.C05_FUNCS, "flatten", timeout, partitions=_client.KIND_PARTS,
         twins=[("twin_flat", "kwargs-only create_book call reaches the final comparison")],
@@ -46,4 +81,4 @@ def body(chk: core.Check):
 
 
 if __name__ == "__main__":
-    core.run_check("C05", __doc__.strip().splitlines()[0], body, _client.replay)
+    core.run_check("C05", __doc__.strip().splitlines()[0], body, replay)
